@@ -581,6 +581,12 @@ func entryClosedAxioms(w *World, c *Comp) []string {
 		return nil
 	}
 	switch c.Kind {
+	case "ghost":
+		// a ghost map describes existing objects only
+		if c.KeySort == "" {
+			return nil
+		}
+		return []string{fmt.Sprintf("(assert (forall ((r %s)) (! %s :pattern ((select %s r)))))", c.KeySort, f("(select "+n+" r)"), n)}
 	case "field", "cell":
 		return []string{fmt.Sprintf("(assert (forall ((r Int)) (! %s :pattern ((select %s r)))))", f("(select "+n+" r)"), n)}
 	case "elems":
